@@ -324,12 +324,43 @@ func (env *Env) specType(ty string) (sort string, gt types.Type) {
 	if env.pkg == nil {
 		efail("cannot resolve type %s", ty)
 	}
-	tv, err := types.Eval(env.vc.prog.fset, env.pkg, 0, ty)
-	if err != nil || tv.Type == nil {
-		// try through imported package names known to the program
-		efail("cannot resolve type %q: %v", ty, err)
+	t := env.resolveTypeText(ty)
+	return env.vc.sortOf(t), t
+}
+
+// resolveTypeText resolves type texts of the forms T, pkg.T, *T, []T, [N]T.
+func (env *Env) resolveTypeText(ty string) types.Type {
+	ty = strings.TrimSpace(ty)
+	switch {
+	case strings.HasPrefix(ty, "*"):
+		return types.NewPointer(env.resolveTypeText(ty[1:]))
+	case strings.HasPrefix(ty, "[]"):
+		return types.NewSlice(env.resolveTypeText(ty[2:]))
+	case strings.HasPrefix(ty, "["):
+		k := strings.Index(ty, "]")
+		var n int64
+		fmt.Sscanf(ty[1:k], "%d", &n)
+		return types.NewArray(env.resolveTypeText(ty[k+1:]), n)
 	}
-	return env.vc.sortOf(tv.Type), tv.Type
+	if k := strings.Index(ty, "."); k >= 0 {
+		p := env.importedPkg(ty[:k])
+		if p == nil {
+			efail("cannot resolve package %q in type %q", ty[:k], ty)
+		}
+		obj, ok := p.Scope().Lookup(ty[k+1:]).(*types.TypeName)
+		if !ok {
+			efail("cannot resolve type %q", ty)
+		}
+		return obj.Type()
+	}
+	if obj, ok := types.Universe.Lookup(ty).(*types.TypeName); ok {
+		return obj.Type()
+	}
+	if obj, ok := env.pkg.Scope().Lookup(ty).(*types.TypeName); ok {
+		return obj.Type()
+	}
+	efail("cannot resolve type %q", ty)
+	return nil
 }
 
 func (env *Env) elabIdent(name string) Term {
@@ -496,6 +527,12 @@ func (env *Env) elabBinary(x *SBinary) Term {
 		return boolTerm(fmt.Sprintf("(%s %s %s)", op, a.S, b.S))
 	case "==", "!=":
 		a, b := env.elab(x.X), env.elab(x.Y)
+		if _, isNil := x.Y.(*SNil); isNil && a.Sort == "Slice" {
+			b = Term{S: "(mkSlice 0 0 0 0)", Sort: "Slice", T: a.T}
+		}
+		if _, isNil := x.X.(*SNil); isNil && b.Sort == "Slice" {
+			a = Term{S: "(mkSlice 0 0 0 0)", Sort: "Slice", T: b.T}
+		}
 		if a.Sort != b.Sort {
 			efail("%s: comparing %s with %s", x, a.Sort, b.Sort)
 		}
@@ -696,6 +733,16 @@ func (env *Env) elabCall(x *SCall) Term {
 		}
 		vc.decl("allocated0", "(declare-fun allocated0 (Int) Bool)")
 		return boolTerm(fmt.Sprintf("(and (not (= %s 0)) (not (allocated0 %s)))", r, r))
+	case "bytecount":
+		// bytecount(s, b): number of elements of byte slice s equal to b
+		if len(x.Args) != 2 {
+			efail("bytecount(s, b)")
+		}
+		a, b := env.elab(x.Args[0]), env.elab(x.Args[1])
+		if a.Sort != "Slice" {
+			efail("bytecount wants a slice")
+		}
+		return mathInt(vc.byteCountTerm(env.curHeap()("E$uint8", "(Array Int (Array Int Int))"), a.S, b.S))
 	case "observe":
 		// observe(Method, recv, args...): value returned by the pure observer recv.Method(args...)
 		if len(x.Args) < 2 {
